@@ -6,10 +6,11 @@ import SteelVerif.C18.GenTraversals
 C18 — arbitrarily deep, wide or cyclic values are handled without exhausting the host.
 
 The property theorems.  `Cfg.current` is the code as it is (tied to the source by `cfg_current_is_scanned` below:
-the flags are regenerated from /repo on every run), `Cfg.fixed` the configuration for which the full statements hold.
-For each statement that is false for `Cfg.current` the full statement is proved for the sound configurations, a
-`…_partial` statement under a decidable guard for every configuration, and the negation for `Cfg.current` from a
-concrete family of graphs.
+the flags are regenerated from /repo on every run), `Cfg.legacy` the code as it was before the repairs 35ea4f4c
+(equal?), fffa6bd3 (Display of boxes), 31703dd1 (Drop for pairs / hash sets), `Cfg.fixed` the configuration for which
+all full statements hold.  For each statement that is false for `Cfg.current` (or was for `Cfg.legacy`) the full
+statement is proved for the sound configurations, a `…_partial` statement under a decidable guard for every
+configuration, and the negation from a concrete family of graphs.
 -/
 namespace SteelVerif.C18
 
@@ -30,8 +31,8 @@ theorem iterative_constant_depth (c : Cfg) (op : Op) (h : op.iterativeIn c = tru
   | print => simp [Op.iterativeIn] at h
   | mark => simp [nativeDepth]
   | drop =>
-    simp only [Op.iterativeIn] at h
-    exact recDepth_const _ _ (fun w => by cases hk : (g.kind w) <;> simp [dropNativeKind, h]) fuel v
+    simp only [Op.iterativeIn, Bool.and_eq_true] at h
+    exact recDepth_const _ _ (fun w => by cases hk : (g.kind w) <;> simp [dropNativeKind, h.1, h.2]) fuel v
   | send => simp [nativeDepth]
 
 /-- The code as it is: the marker, the cycle collector and sending a value to a thread are worklists / moves. -/
@@ -93,9 +94,14 @@ theorem eq_terminates_cyclic_partial (c : Cfg) (g : Graph) (hg : eqUncheckedDesc
     ∃ fuel, fuel ≤ eqBoundExp g ∧ ∃ r : Bool, iter (eqStep c g keyEq) fuel { work := [(a, b)], vis := [] } = some r :=
   eq_terminates_exp c g hg keyEq a b
 
-/-- the negation for the code as it is: two distinct rings of boxes (heap boxes or strong boxes) of any length -/
+/-- the code as it is (after 35ea4f4c): every pair of values of every graph -/
+theorem eq_terminates_cyclic_current (g : Graph) (keyEq : Nat → Nat → Bool) (a b : Nat) :
+    ∃ fuel, fuel ≤ eqBoundPoly g ∧ ∃ r : Bool, iter (eqStep Cfg.current g keyEq) fuel { work := [(a, b)], vis := [] } = some r :=
+  eq_terminates_poly Cfg.current (by decide) g keyEq a b
+
+/-- the negation for the code as it was: two distinct rings of boxes (heap boxes or strong boxes) of any length -/
 theorem not_eq_terminates_cyclic (k : Kind) (hk : k = .box ∨ k = .sbox) (n : Nat) (hn : 0 < n) (keyEq : Nat → Nat → Bool) :
-    ¬ ∃ fuel, ∃ r : Bool, iter (eqStep Cfg.current (twoRings k n) keyEq) fuel { work := [(0, n)], vis := [] } = some r := by
+    ¬ ∃ fuel, ∃ r : Bool, iter (eqStep Cfg.legacy (twoRings k n) keyEq) fuel { work := [(0, n)], vis := [] } = some r := by
   intro ⟨fuel, r, h⟩
   rw [eq_box_rings_diverge k hk n hn keyEq fuel] at h
   cases h
@@ -143,15 +149,15 @@ theorem print_terminates_cyclic_partial (c : Cfg) (g : Graph) (hg : ccDescB c g 
     ∃ fuel, fuel ≤ ccBound g ∧ ∃ r, ccRun c g fuel root = some r :=
   cc_terminates c g hg root
 
-/-- negation: a ring of strong boxes never switches recording on -/
+/-- negation for the code as it was (before fffa6bd3): a ring of strong boxes never switched recording on -/
 theorem not_print_terminates_cyclic (n : Nat) (hn : 0 < n) :
-    ¬ ∃ fuel, ∃ r, ccRun Cfg.current (ring .sbox n) fuel 0 = some r := by
+    ¬ ∃ fuel, ∃ r, ccRun Cfg.legacy (ring .sbox n) fuel 0 = some r := by
   intro ⟨fuel, r, h⟩
   rw [cc_sbox_ring_diverges n hn fuel] at h
   cases h
 
-/-- second phase on a ring of heap boxes: `Display` re-enters itself at every box, every level of fuel is used -/
-theorem print_box_ring_unbounded (n fuel i : Nat) (hi : i < n) : nativeDepth Cfg.current .print (ring .box n) fuel i = 1 + fuel := by
+/-- second phase on a ring of heap boxes, as it was: `Display` re-entered itself at every box, every level of fuel is used -/
+theorem print_box_ring_unbounded (n fuel i : Nat) (hi : i < n) : nativeDepth Cfg.legacy .print (ring .box n) fuel i = 1 + fuel := by
   simp [nativeDepth, printDepth_box_ring n fuel i hi]
 
 /-- **drop** — the worklist consumes one reference per round: it ends on every graph (cycles are leaked, not looped),
@@ -207,7 +213,7 @@ theorem recursive_depth_linear (k : Kind) (hk : hashRecurses k = true) (n fuel :
   simp only [nativeDepth, hashDepth]
   apply recDepth_chain (chain k n).sons _ n (Or.inr (chain_sons_zero k n))
     (fun i h0 hi => chain_sons k (hashRecurses_ne_leaf hk) n i h0 hi)
-    (fun i h0 hi => by simp [Cfg.current, chain_kind k n i h0 hi, hk]) n fuel (Nat.le_refl _) hf
+    (fun i h0 hi => by simp [Cfg.current, Cfg.legacy, chain_kind k n i h0 hi, hk]) n fuel (Nat.le_refl _) hf
 
 theorem no_constant_bound_hash (k : Kind) (hk : hashRecurses k = true) (b : Nat) :
     ∃ g fuel v, b < nativeDepth Cfg.current .hash g fuel v :=
@@ -235,11 +241,25 @@ theorem drop_depth_linear (k : Kind) (hk : dropNativeKind Cfg.current k = true) 
     (fun i h0 hi => chain_sons k hkl n i h0 hi)
     (fun i h0 hi => by simp [chain_kind k n i h0 hi, hk]) n fuel (Nat.le_refl _) hf
 
-/-- Display of a chain of boxes re-enters `Display for SteelVal` at every level: the depth limit never applies -/
-theorem print_depth_linear_boxes (n fuel : Nat) (hf : n + 1 ≤ fuel) :
-    nativeDepth Cfg.current .print (chain .box n) fuel n = n + 2 := by
-  simp only [nativeDepth, printDepth_box_chain n n fuel (Nat.le_refl _) hf]
+/-- Display of a chain of a kind that re-enters `Display for SteelVal` at every level: the depth limit never applies.
+    `Cfg.current`: hash maps and hash sets; `Cfg.legacy`: boxes and strong boxes as well. -/
+theorem print_depth_linear_reentrant (c : Cfg) (k : Kind) (hk : printReenters c k = true) (n fuel : Nat) (hf : n + 1 ≤ fuel) :
+    nativeDepth c .print (chain k n) fuel n = n + 2 := by
+  simp only [nativeDepth, printDepth_reentrant_chain c k hk n n fuel (Nat.le_refl _) hf]
   omega
+
+theorem print_depth_linear_maps (n fuel : Nat) (hf : n + 1 ≤ fuel) : nativeDepth Cfg.current .print (chain .map n) fuel n = n + 2 :=
+  print_depth_linear_reentrant Cfg.current .map (by decide) n fuel hf
+
+theorem print_depth_linear_boxes (n fuel : Nat) (hf : n + 1 ≤ fuel) : nativeDepth Cfg.legacy .print (chain .box n) fuel n = n + 2 :=
+  print_depth_linear_reentrant Cfg.legacy .box (by decide) n fuel hf
+
+/-- after fffa6bd3 a value without hash maps / hash sets is printed below the depth limit, boxes included -/
+theorem print_depth_bounded_current (g : Graph) (h : ∀ v, g.kind v ≠ .map ∧ g.kind v ≠ .set) (fuel v : Nat) :
+    nativeDepth Cfg.current .print g fuel v ≤ printLimit + 2 :=
+  print_depth_bounded Cfg.current g (fun v => by
+    have := h v
+    cases hk : g.kind v <;> simp_all [printReenters, Cfg.current, Cfg.legacy]) fuel v
 
 theorem keyChain_containerKeys (n i : Nat) (h0 : 0 < i) (hi : i ≤ n) : containerKeys (keyChain n) i = if i = 1 then [] else [i - 1] := by
   have hne : i ≠ 0 := by omega
@@ -268,17 +288,17 @@ theorem eq_key_depth_linear (n fuel : Nat) (hf : n + 1 ≤ fuel) (hn : 0 < n) :
       intro f h1 h2
       cases f with
       | zero => omega
-      | succ f => simp [recDepth, Cfg.current, keyChain_containerKeys n 1 (by omega) h1, maxL]
+      | succ f => simp [recDepth, Cfg.current, Cfg.legacy, keyChain_containerKeys n 1 (by omega) h1, maxL]
     | succ i ih =>
       intro f h1 h2
       cases f with
       | zero => omega
       | succ f =>
         have := keyChain_containerKeys n (i + 2) (by omega) h1
-        simp only [recDepth, Cfg.current, Bool.not_false, if_true, this]
+        simp only [recDepth, Cfg.current, Cfg.legacy, Bool.not_false, if_true, this]
         simp only [show ¬ (i + 2 = 1) by omega, if_false, List.map_cons, List.map_nil, maxL, show i + 2 - 1 = i + 1 by omega]
         have h := ih f (by omega) (by omega)
-        simp only [Cfg.current, Bool.not_false] at h
+        simp only [Cfg.current, Cfg.legacy, Bool.not_false] at h
         rw [h]
         simp
         omega
@@ -303,12 +323,12 @@ def knownRecursive : List (String × List String) := [
   -- K18a  Hash for SteelVal
   ("hash", ["VectorV", "HashMapV", "HashSetV", "CustomStruct", "IterV", "ReducerV", "ListV", "Pair", "MutableVector",
             "SyntaxObject", "Boxed", "HeapAllocated"]),
-  -- K18b  Display re-entered with a fresh depth counter
-  ("print", ["HashMapV", "HashSetV", "SyntaxObject", "Boxed", "HeapAllocated"]),
+  -- K18b  Display re-entered with a fresh depth counter (boxes repaired by fffa6bd3)
+  ("print", ["HashMapV", "HashSetV", "SyntaxObject"]),
   -- K18d  key lookup inside ==
   ("equal", ["HashMapV", "HashSetV"]),
-  -- K18f  payloads without `impl Drop`
-  ("drop", ["Closure", "Custom", "HashSetV", "IterV", "ReducerV", "FutureV", "ContinuationFunction", "Pair", "BoxedIterator",
+  -- K18f  payloads without `impl Drop` (pairs and hash sets repaired by 31703dd1)
+  ("drop", ["Closure", "Custom", "IterV", "ReducerV", "FutureV", "ContinuationFunction", "BoxedIterator",
             "SyntaxObject", "Boxed", "Reference"]),
   -- K18e  serialize-value
   ("serialize", ["Closure", "ListV", "Pair", "HashMapV", "CustomStruct", "HeapAllocated", "VectorV", "StreamV", "HashSetV",
@@ -340,7 +360,8 @@ def scannedCfg : Cfg :=
   { eqBoxVisited := Gen.eqBoxVisited, eqMixVecVisited := Gen.eqMixVecVisited, eqKeysIterative := Gen.eqKeysIterative,
     markSboxVisited := Gen.markSboxVisited, markImmVisited := Gen.markImmVisited, ccSboxMutable := Gen.ccSboxMutable,
     ccTracksAlways := Gen.ccTracksAlways, hashIterative := Gen.hashIterative, hashCycleSafe := Gen.hashCycleSafe,
-    printNoReentry := Gen.printNoReentry, dropAllIterative := Gen.dropAllIterative }
+    printBoxNoReentry := Gen.printBoxNoReentry, printMapNoReentry := Gen.printMapNoReentry,
+    dropPairSetIterative := Gen.dropPairSetIterative, dropClosureBoxIterative := Gen.dropClosureBoxIterative }
 
 theorem cfg_current_is_scanned : scannedCfg = Cfg.current := by decide
 
@@ -348,9 +369,11 @@ theorem print_limit_is_scanned : Gen.printLimit = printLimit := by decide
 
 /-- the kinds the model treats as checked / switching recording on are the ones the scan finds -/
 theorem scanned_kind_sets :
-    Gen.eqCheckedVariants = ["CustomStruct", "HashMapV", "HashSetV", "ListV", "MutableVector", "Pair", "VectorV"] ∧
-    Gen.ccSetsFoundVariants = ["HeapAllocated", "MutableVector"] ∧
-    Gen.dropImpls = ["LazyStream", "SteelHashMap", "SteelVector", "UserDefinedStruct"] ∧ Gen.listDropHandler = true := by decide
+    Gen.eqCheckedVariants = ["Boxed", "CustomStruct", "HashMapV", "HashSetV", "HeapAllocated", "ListV", "MutableVector", "Pair",
+      "VectorV"] ∧
+    Gen.ccSetsFoundVariants = ["Boxed", "HeapAllocated", "MutableVector"] ∧
+    Gen.dropImpls = ["LazyStream", "Pair", "SteelHashMap", "SteelHashSet", "SteelVector", "UserDefinedStruct"] ∧
+    Gen.listDropHandler = true := by decide
 
 /-! ## 5. Non-vacuity -/
 
@@ -369,10 +392,15 @@ def demoTwo : Graph := #[{ kind := .mvec, kids := [0] }, { kind := .mvec, kids :
 example : eqTop Cfg.current demoTwo 5 0 1 = some true := by decide
 example : eqUncheckedDescB Cfg.current demoTwo = true := by decide
 
-/-- the guard fails exactly where the code loops: two self-referential boxes -/
-example : eqUncheckedDescB Cfg.current (twoRings .box 1) = false := by decide
-example : eqTop Cfg.current (twoRings .box 1) 40 0 1 = none := by decide
+/-- the guard failed exactly where the code looped: two self-referential boxes -/
+example : eqUncheckedDescB Cfg.legacy (twoRings .box 1) = false := by decide
+example : eqTop Cfg.legacy (twoRings .box 1) 40 0 1 = none := by decide
+example : eqTop Cfg.current (twoRings .box 1) 5 0 1 = some true := by decide
 example : eqTop Cfg.fixed (twoRings .box 1) 5 0 1 = some true := by decide
+example : (ccRun Cfg.current (ring .sbox 2) 10 0).isSome = true ∧ ccRun Cfg.legacy (ring .sbox 2) 10 0 = none := by decide
+example : nativeDepth Cfg.current .print (chain .box 20) 100 20 = 22 ∧ nativeDepth Cfg.legacy .print (chain .box 20) 100 20 = 22 := by decide
+example : nativeDepth Cfg.current .drop (chain .pair 5) 100 5 = 1 ∧ nativeDepth Cfg.legacy .drop (chain .pair 5) 100 5 = 6 ∧
+    nativeDepth Cfg.current .drop (chain .closure 5) 100 5 = 6 := by decide
 
 example : nativeDepth Cfg.current .hash (chain .list 5) 100 5 = 6 := by decide
 example : nativeDepth Cfg.fixed .hash (chain .list 5) 100 5 = 1 := by decide
